@@ -1,8 +1,8 @@
 (* C20 — Room synchronisation locks: exclusive, bounded, never lost.
    Property theorems only: statement, exact, Print Assumptions.  Proofs: proofs/C20Scan.v, proofs/C20P.v.
-   Model: model/Lock.v (RoomLockService::start / acquire_lock, as the code is).
+   Model: model/Lock.v (RoomLockService::start / acquire_lock; process_acquired_room / cleanup), as the code is.
    run_C20 / spec_C20 / known_C20: run/Run_C20.v — the functions the correspondence harness evaluates. *)
-From DV Require Import Run_C20 C20Scan C20P.
+From DV Require Import Run_C20 C20Scan C20ConnFacts C20P.
 Open Scope N_scope.
 
 (* The full property, as one statement about the functions the harness evaluates, plus the part
@@ -34,7 +34,7 @@ Print Assumptions C20_counter_and_wakeup.
    the model observes (grants never exceed requests per connection and room; a request of a
    connection whose channels are all alive is, after every message, blocked only by a held room or
    by the limit) — whatever the order in which the grants of one message are observed *)
-Theorem C20_once_never_lost_partial : forall c, snd (spec_pair c (run_C20 c)) = true.
+Theorem C20_once_never_lost_partial : forall max tr, snd (spec_pair_lock max tr (run_lock max tr)) = true.
 Proof. exact live_always. Qed.
 Print Assumptions C20_once_never_lost_partial.
 
@@ -47,24 +47,56 @@ Theorem C20_release_progress_partial : forall s who r p,
 Proof. exact release_progress. Qed.
 Print Assumptions C20_release_progress_partial.
 
-(* (4) the whole oracle (exclusive, bounded, once, never lost) holds on every history outside the
-   known class 1 = some release sent by a connection that does not hold the room frees a locked room *)
-Theorem C20_outside_known : forall c, known_C20 c = [] -> spec_C20 c (run_C20 c) = true.
+(* (4) the whole oracle (exclusive, bounded, once, never lost) holds on every service history
+   outside the known class 1 = some release sent by a connection that does not hold the room
+   frees a locked room *)
+Theorem C20_outside_known : forall max tr,
+  known_C20 (CLock max tr) = [] -> spec_C20 (CLock max tr) (run_C20 (CLock max tr)) = true.
 Proof. exact outside_known. Qed.
 Print Assumptions C20_outside_known.
 
-Theorem C20_exclusive_bounded_unless_foreign_release : forall c,
-  foreign_unlock c = false -> fst (spec_pair c (run_C20 c)) = true.
+Theorem C20_exclusive_bounded_unless_foreign_release : forall max tr,
+  foreign_lock max tr = false -> fst (spec_pair_lock max tr (run_lock max tr)) = true.
 Proof. exact safe_unless_foreign. Qed.
 Print Assumptions C20_exclusive_bounded_unless_foreign_release.
 
-(* (5) the property at full strength is refuted by the faithful model (and by the real service:
-   the witness is the first directed case of the harness): Unlock carries no owner *)
+(* (5) connections on top of the service (process_acquired_room always unlocks, cleanup unlocks
+   what is in acquired_lock): a connection-level history in which no connection ends while one of
+   its room tasks runs (class 1) or while a grant waits in its channel (class 2) causes a service
+   history without any release by a non-holder, on which the whole service oracle holds *)
+Theorem C20_conn_outside_known_partial : forall max es,
+  known_C20 (CConn max es) = [] ->
+  foreign_lock max (conn_trace max es) = false /\
+  spec_C20 (CLock max (conn_trace max es)) (run_C20 (CLock max (conn_trace max es))) = true.
+Proof. exact conn_benign_service_ok. Qed.
+Print Assumptions C20_conn_outside_known_partial.
+
+(* (5') the source still has the shape the connection part of the model (and the part of the
+   connection loop that the harness plays itself) assumes: Unlock carries no owner; every exit path of
+   a room task unlocks; the loop hands the oldest grant to process_acquired_room; the end of the
+   connection unlocks acquired_lock and does NOT drain the lock channel; the service channel holds
+   fewer messages than the harness sends no-ops to wait for quiescence *)
+Theorem C20_conn_code_as_modelled :
+  unlock_carries_owner = false /\ Nat.ltb lock_channel_size 8 = true /\ task_always_unlocks = true /\
+  loop_spawns_oldest_grant = true /\ end_unlocks_acquired = true /\ end_drains_lock_channel = false.
+Proof. exact conn_facts_as_modelled. Qed.
+Print Assumptions C20_conn_code_as_modelled.
+
+(* (6) the property at full strength is refuted by the faithful model (and by the real code: the
+   witnesses are the first directed cases of the harness): Unlock carries no owner; reachable
+   through the connection code alone (end of connection while a room task runs); and a grant
+   waiting in the channel of a connection that ends is never released *)
 Theorem C20_refuted : spec_C20 k1_witness (run_C20 k1_witness) = false /\ known_C20 k1_witness = [1%Z].
 Proof. exact refuted. Qed.
 Print Assumptions C20_refuted.
+Theorem C20_refuted_conn :
+  spec_C20 k1_conn_witness (run_C20 k1_conn_witness) = false /\ known_C20 k1_conn_witness = [1%Z] /\
+  spec_C20 k2_conn_witness (run_C20 k2_conn_witness) = false /\ known_C20 k2_conn_witness = [2%Z].
+Proof. exact refuted_conn. Qed.
+Print Assumptions C20_refuted_conn.
 
 Example C20_nonvacuous_ex : known_C20 ok_witness = [] /\
-  run_grants ok_witness = [[(1, 0, 7); (1, 0, 6)]; []; [(1, 0, 5)]; [(2, 0, 6)]; []; [(2, 0, 5)]; []; []; []].
+  run_from (init 2) [Request 1 [5; 6; 7] 0; Request 2 [5; 6] 0; Unlock 1 7; Unlock 1 6; Unlock 3 9; Unlock 1 5; Unlock 2 6; DropChan 2 0; Unlock 2 5] =
+  [[(1, 0, 7); (1, 0, 6)]; []; [(1, 0, 5)]; [(2, 0, 6)]; []; [(2, 0, 5)]; []; []; []].
 Proof. exact nonvacuous. Qed.
 Print Assumptions C20_nonvacuous_ex.
